@@ -16,6 +16,7 @@ from .utils import (
     _generate_ax,
     _hoomd_dict_mapping,
     _map_dict_keys,
+    _validate_scale,
     rotate_order2_tensor,
     translate_inertia_tensor,
 )
@@ -215,6 +216,7 @@ class Polygon(Shape2D):
             scale (float):
                 Scale factor.
         """
+        _validate_scale(scale)
         self._vertices *= scale
 
     @property
